@@ -17,6 +17,7 @@ from .scalar import is_sym, s_bool, s_not, s_any, s_all, eval_cell, to_bool_expr
 ROOT = os.path.dirname(os.path.dirname(os.path.abspath(__file__)))
 SOLVER_TIMEOUT_MS = int(os.environ.get("VERIF_SOLVER_TIMEOUT_MS", "300000"))
 REPLAY_TRIES = int(os.environ.get("VERIF_REPLAY_TRIES", "24"))
+TASK_WALL_S = 1500 if os.environ.get("VERIF_TIER", "quick") == "quick" else 5400
 
 
 class Harness:
@@ -448,9 +449,35 @@ def run_task(task):
     mod = importlib.import_module(task["module"])
     cls = getattr(mod, task["cls"])
     h = cls(**task["cfg"])
-    return decide(h, seed=task.get("seed", 0), nvalidate=task.get("nvalidate", 2),
-                  time_limit=task.get("time_limit"), replay_dir=os.path.join(ROOT, "replays"), prop=task["prop"],
-                  max_paths=task.get("max_paths", 20000))
+    # watchdog: a configuration that does not come back (e.g. a library loop that no longer terminates) is reported as a harness error, not waited for
+    import signal
+    wall = int(os.environ.get("VERIF_TASK_WALL_S", "0")) or int(2 * (task.get("time_limit") or 0)) or TASK_WALL_S
+
+    class _Watchdog(BaseException):
+        pass
+
+    def _alarm(signum, frame):
+        raise _Watchdog()
+
+    try:
+        signal.signal(signal.SIGALRM, _alarm)
+        signal.alarm(wall)
+    except (ValueError, OSError):   # not in the main thread
+        pass
+    try:
+        return decide(h, seed=task.get("seed", 0), nvalidate=task.get("nvalidate", 2),
+                      time_limit=task.get("time_limit"), replay_dir=os.path.join(ROOT, "replays"), prop=task["prop"],
+                      max_paths=task.get("max_paths", 20000))
+    except _Watchdog:
+        return dict(harness=task["cls"], cfg=task["cfg"], errors=[f"configuration did not finish within {wall} s (watchdog); inconclusive"],
+                    paths=0, aborted=0, fork_queries=0, final_queries=0, unsat=0, sat=0, unknown=0, solver_s=0.0,
+                    validations=0, validation_mismatch=[], violations=[], findings=[], spurious=[], samples=[],
+                    reach_sat=0, obligations=0, ops={}, wall_s=float(wall))
+    finally:
+        try:
+            signal.alarm(0)
+        except (ValueError, OSError):
+            pass
 
 
 def _die_with_parent():
